@@ -13,7 +13,7 @@ Inductive valI := VA (a : N) (es : list err).            (* errors per driver, i
 Inductive exI := EX (a : N) (h : Z).
 Inductive rawI := RW (d p : N) (r : option bytes).
 Inductive cryI := CR (id : N) (en : bool) (eh : Z).
-Inductive sigI := SG (k : N) (d : N) (okv : bool).
+Inductive sigI := SG (k : N) (d : N) (okv : bool) (ad p : N).   (* ad, p: address id of the sign type, public key number *)
 Inductive cfgI := Cfg (drv : list drvI) (val : list valI) (fmulti fb58 ffmt : Z) (api : bool)
                       (exec : list exI) (cap pcap : N) (def : N)
                       (raw : list rawI) (cry : list cryI) (sigs : list sigI).
@@ -49,7 +49,13 @@ Fixpoint raw_find (d p : N) (l : list rawI) : option bytes :=
 Fixpoint sig_find (k : N) (l : list sigI) : option (N * bool) :=
   match l with
   | [] => None
-  | SG k' d okv :: tl => if N.eqb k k' then Some (d, okv) else sig_find k tl
+  | SG k' d okv _ _ :: tl => if N.eqb k k' then Some (d, okv) else sig_find k tl
+  end.
+
+Fixpoint sig_from (k : N) (l : list sigI) : option (N * N) :=
+  match l with
+  | [] => None
+  | SG k' _ _ ad p :: tl => if N.eqb k k' then Some (ad, p) else sig_from k tl
   end.
 
 Definition cfg_of (x : cfgI) : config :=
@@ -69,6 +75,7 @@ Definition cfg_of (x : cfgI) : config :=
             eth_id
             (map (fun e => match e with CR id en eh => (id, (en, eh)) end) cry)
             (fun k => sig_find k sigs)
+            (fun k => sig_from k sigs)
   end.
 
 (** ** model agreement with an unknown iteration order: follow every cache
@@ -142,15 +149,27 @@ Definition ambiguous_somewhere (c : config) (prev : list op) (a : N) (h : Z) : b
 Definition pre_fork (c : config) (h : Z) : bool :=
   negb (is_fork h (c_fmulti c)) || negb (is_fork h (c_fb58 c)).
 
-Definition pub_other_side (c : config) (prev : list op) (d : Z) (p : N) (h : Z) : bool :=
-  let id := resolve_drv c d in
+(* the public-key conversion an operation performs: driver, key, context height
+   (Transaction.CheckSign converts the signer's key since 909acb0) *)
+Definition conv_of (c : config) (o : op) : option (N * N * Z) :=
+  match o with
+  | OPub d p h => Some (resolve_drv c d, p, h)
+  | OFrom d p h => Some (d, p, h)
+  | OSign k h => match c_sfrom c k with Some (d, p) => Some (d, p, h) | None => None end
+  | _ => None
+  end.
+
+Definition pub_other_side_id (c : config) (prev : list op) (id : N) (p : N) (h : Z) : bool :=
   N.eqb id (c_eth c)
-  && existsb (fun o' => match o' with
-                        | OPub d' p' h' =>
-                            N.eqb (resolve_drv c d') id && N.eqb p p'
+  && existsb (fun o' => match conv_of c o' with
+                        | Some (id', p', h') =>
+                            N.eqb id' id && N.eqb p p'
                             && negb (Bool.eqb (is_fork h (c_ffmt c)) (is_fork h' (c_ffmt c)))
-                        | _ => false
+                        | None => false
                         end) prev.
+
+Definition pub_other_side (c : config) (prev : list op) (d : Z) (p : N) (h : Z) : bool :=
+  pub_other_side_id c prev (resolve_drv c d) p h.
 
 (** codes (known_findings/C19.json):
     1 = same address queried at two heights with different enabled driver sets (cache poisoning)
@@ -172,6 +191,8 @@ Definition kf_code (c : config) (prev : list op) (o : op) (ha : ans) (fresh : li
       else by_order (ambiguous_somewhere c prev a h) [ha]
   | OPub d p h =>
       if fresh_bad then 0%N else if pub_other_side c prev d p h then 4%N else 0%N
+  | OFrom d p h =>
+      if fresh_bad then 0%N else if pub_other_side_id c prev d p h then 4%N else 0%N
   | OSign _ _ => 0%N
   end.
 
